@@ -116,7 +116,7 @@ static void densityCase(Rng &rng, CaseResult &r) {
   leg.updateCellTargetX(tx);
   leg.updateCellTargetY(ty);
   std::string hist;
-  auto checkState = [&](const std::string &where) {
+  auto checkStateOn = [&](DensityLegalizer &leg, const std::string &where) {
     std::vector<int> cnt(n, 0);
     long long capSum = 0;
     for (int i = 0; i < leg.nbBinsX(); ++i)
@@ -158,6 +158,7 @@ static void densityCase(Rng &rng, CaseResult &r) {
                                                  std::to_string(leg.binLimitY(by)) + ".." + std::to_string(leg.binLimitY(by + 1)));
     }
   };
+  auto checkState = [&](const std::string &where) { checkStateOn(leg, where); };
   checkState("initial");
   int applied = 0;
   std::set<std::pair<int, int>> levels;
@@ -216,6 +217,25 @@ static void densityCase(Rng &rng, CaseResult &r) {
     hist += std::string(OPN[op]) + " ";
     levels.insert({leg.levelX(), leg.levelY()});
     checkState("after " + hist);
+  }
+  if (r.viol.empty() && applied > 0) {
+    // a second legalizer built from the state the history left behind (the public converting constructor): it takes over the view
+    // and the allocation as they are, and its own passes keep the invariants
+    DensityLegalizer succ(static_cast<const HierarchicalDensityPlacement &>(leg), p);
+    if (succ.levelX() != leg.levelX() || succ.levelY() != leg.levelY() || succ.nbBinsX() != leg.nbBinsX() || succ.nbBinsY() != leg.nbBinsY())
+      r.fail("C16:successor-view-differs", "levels " + std::to_string(succ.levelX()) + "," + std::to_string(succ.levelY()) + " vs " + std::to_string(leg.levelX()) + "," + std::to_string(leg.levelY()));
+    for (int cc = 0; cc < n && r.viol.empty(); ++cc)
+      if (succ.cellBinX(cc) != leg.cellBinX(cc) || succ.cellBinY(cc) != leg.cellBinY(cc)) r.fail("C16:successor-allocation-differs", "cell " + std::to_string(cc));
+    succ.updateCellTargetX(tx);
+    succ.updateCellTargetY(ty);
+    if (r.viol.empty()) checkStateOn(succ, "successor of " + hist);
+    int k = (int)trng.range(0, 3);
+    if (r.viol.empty()) {
+      if (k == 0) succ.run(); else if (k == 1) succ.improve(); else if (k == 2) succ.coarsenFully(); else succ.refineFully();
+      checkStateOn(succ, "successor of " + hist + "then " + (k == 0 ? "run" : k == 1 ? "improve" : k == 2 ? "coarsenFully" : "refineFully"));
+    }
+    r.count("successor_legalizers_checked");
+    if (leg.levelX() + 1 < leg.nbLevelX() || leg.levelY() + 1 < leg.nbLevelY()) r.count("successor_legalizers_built_from_a_refined_view");
   }
   r.count("history_steps", applied);
   r.count("bins", (long long)g.nbBinsX() * g.nbBinsY());
